@@ -2,6 +2,7 @@ package props
 
 import (
 	"context"
+	"encoding/binary"
 	"errors"
 	"fmt"
 	"math/rand"
@@ -45,7 +46,7 @@ func init() {
 			}
 			return []runner.Phase{
 				{Name: "scenarios", Variant: "race", Cases: n, Run: c14case, CaseTimeout: 120 * time.Second,
-					Required: []string{"executes_checked", "batch_entries_checked", "concurrent_first_use", "prepare_failures_scripted", "unprepared_scripted", "wrong_arity_calls", "small_cache_scenarios", "deadline_scenarios", "callers_ended_by_their_own_deadline", "reused_query_scenarios"}},
+					Required: []string{"executes_checked", "batch_entries_checked", "concurrent_first_use", "prepare_failures_scripted", "unprepared_scripted", "wrong_arity_calls", "small_cache_scenarios", "deadline_scenarios", "callers_ended_by_their_own_deadline", "reused_query_scenarios", "result_rows_checked_against_their_prepare", "result_rows_of_a_later_generation_checked"}},
 			}
 		},
 	})
@@ -77,6 +78,9 @@ type c14state struct {
 	unprep      int64
 	newGenExec  int64
 	ownDeadline int64
+	// result rows read back and compared with the result metadata of the generation that served them
+	rowsChecked       int64
+	rowsCheckedNewGen int64
 }
 
 func (st *c14state) problem(key, what string) {
@@ -175,7 +179,7 @@ func (n *c14node) handler(sc *fakenode.ServerConn, req *fakenode.Req) {
 		default:
 			ps := &cqlref.PreparedSpec{ID: n.id(sc.Keyspace, j, gen),
 				Bind:   cqlref.Metadata{Global: true, ColCount: 2, Columns: []cqlref.Column{{Keyspace: "k", Table: fmt.Sprintf("t%d", j), Name: "tag", Type: &cqlref.Type{ID: cqlref.TText}}, {Keyspace: "k", Table: fmt.Sprintf("t%d", j), Name: "v", Type: &cqlref.Type{ID: cqlref.TInt}}}},
-				Result: cqlref.Metadata{Global: true, ColCount: 0}}
+				Result: c14resultMeta(j, gen)}
 			sc.Reply(req, cqlref.OpResult, nil, cqlref.BodyPrepared(sc.Version, ps))
 		}
 	case cqlref.OpExecute:
@@ -212,7 +216,19 @@ func (n *c14node) handler(sc *fakenode.ServerConn, req *fakenode.Req) {
 		if g > 0 {
 			atomic.AddInt64(&n.st.newGenExec, 1)
 		}
-		sc.ReplyVoid(req)
+		// the answer is one row laid out the way *this* generation of the statement was described in its PREPARED
+		// response (a statement prepared again after a schema change can have other result columns)
+		meta := c14resultMeta(j, g)
+		row := [][]byte{req.PreparedID}
+		for k := 1; k < meta.ColCount; k++ {
+			var b [4]byte
+			binary.BigEndian.PutUint32(b[:], uint32(g*10+k))
+			row = append(row, b[:])
+		}
+		if req.Params.SkipMeta {
+			meta.NoMetadata, meta.Columns = true, nil
+		}
+		sc.ReplyRows(req, &cqlref.RowsSpec{Meta: meta, Rows: [][][]byte{row}})
 	case cqlref.OpBatch:
 		stale := []byte(nil)
 		for _, e := range req.BatchStmts {
@@ -240,6 +256,51 @@ func (n *c14node) handler(sc *fakenode.ServerConn, req *fakenode.Req) {
 	default:
 		sc.ReplyVoid(req)
 	}
+}
+
+// c14resultMeta: the result columns of generation gen of statement j: the id, then gen%3 int columns.
+func c14resultMeta(j, gen int) cqlref.Metadata {
+	m := cqlref.Metadata{Global: true, Columns: []cqlref.Column{{Keyspace: "k", Table: fmt.Sprintf("t%d", j), Name: "id", Type: &cqlref.Type{ID: cqlref.TText}}}}
+	for k := 1; k <= gen%3; k++ {
+		m.Columns = append(m.Columns, cqlref.Column{Keyspace: "k", Table: fmt.Sprintf("t%d", j), Name: fmt.Sprintf("x%d", k), Type: &cqlref.Type{ID: cqlref.TInt}})
+	}
+	m.ColCount = len(m.Columns)
+	return m
+}
+
+// c14exec executes q and reads its one row: the row must be decoded with the result metadata of the PREPARE that
+// issued the id the execution ended with.
+func c14exec(st *c14state, q *gocql.Query) error {
+	it := q.Iter()
+	m := map[string]interface{}{}
+	got := it.MapScan(m)
+	cols := len(it.Columns())
+	if err := it.Close(); err != nil {
+		return err
+	}
+	atomic.AddInt64(&st.rowsChecked, 1)
+	id, _ := m["id"].(string)
+	var g int
+	parts := strings.Split(id, "|")
+	if !got || len(parts) != 5 {
+		st.problem("C14:result-row-wrong", fmt.Sprintf("an execution that ended without error delivered row %v (got=%v) instead of the row the node sent", m, got))
+		return nil
+	}
+	fmt.Sscanf(parts[4], "g%d", &g)
+	want := 1 + g%3
+	ok := cols == want && len(m) == want
+	for k := 1; ok && k < want; k++ {
+		if v, _ := m[fmt.Sprintf("x%d", k)].(int); v != g*10+k {
+			ok = false
+		}
+	}
+	if !ok {
+		st.problem("C14:result-metadata-of-other-prepare", fmt.Sprintf("the execution ended with id %q, whose PREPARED response describes %d result columns; the row was decoded as %d columns: %v", id, want, cols, m))
+	}
+	if g > 0 {
+		atomic.AddInt64(&st.rowsCheckedNewGen, 1)
+	}
+	return nil
 }
 
 func c14case(c *runner.Ctx, i int) {
@@ -376,9 +437,9 @@ func c14case(c *runner.Ctx, i int) {
 						}
 						q.Bind(fmt.Sprintf("tag%d", j), k)
 						if hasDeadline {
-							c.Guard("Query.Exec", func() { err = q.WithContext(ctx).Exec() }) // (WithContext works on a copy)
+							c.Guard("Query.Exec", func() { err = c14exec(st, q.WithContext(ctx)) }) // (WithContext works on a copy)
 						} else {
-							c.Guard("Query.Exec", func() { err = q.Exec() })
+							c.Guard("Query.Exec", func() { err = c14exec(st, q) })
 						}
 					}
 					if hasDeadline && err != nil && (errors.Is(err, context.DeadlineExceeded) || errors.Is(err, context.Canceled) || strings.Contains(err.Error(), "deadline exceeded") || strings.Contains(err.Error(), "context canceled")) {
@@ -409,6 +470,22 @@ func c14case(c *runner.Ctx, i int) {
 			arityErrs++
 		}
 		_ = before
+		// three values, and none at all (a binding callback that comes back empty-handed): refused, not sent
+		if err := sess.Query(c14stmt(j), fmt.Sprintf("tag%d", j), 1, 2).Exec(); err == nil {
+			st.problem("C14:wrong-arity-accepted", fmt.Sprintf("statement %d executed with 3 values instead of 2 returned no error", j))
+		}
+		if err := sess.Bind(c14stmt(j), func(*gocql.QueryInfo) ([]interface{}, error) { return nil, nil }).Exec(); err == nil {
+			st.problem("C14:wrong-arity-accepted", fmt.Sprintf("statement %d executed with no values (empty binding) instead of 2 returned no error", j))
+		}
+		if version >= 2 {
+			b := sess.NewBatch(gocql.UnloggedBatch)
+			b.Query(c14stmt(j), fmt.Sprintf("tag%d", j), 7)
+			b.Bind(c14stmt((j+1)%ns), func(*gocql.QueryInfo) ([]interface{}, error) { return []interface{}{}, nil })
+			if err := sess.ExecuteBatch(b); err == nil {
+				st.problem("C14:wrong-arity-accepted", fmt.Sprintf("a batch whose second entry binds no values to statement %d (2 markers) returned no error", (j+1)%ns))
+			}
+		}
+		c.Add("wrong_arity_calls", 3)
 	}
 	// after scripted failures are used up, every statement must work on every node again (failures are not cached)
 	for round := 0; round < 2*nn; round++ {
@@ -469,6 +546,8 @@ func c14case(c *runner.Ctx, i int) {
 	c.Add("batch_entries_checked", atomic.LoadInt64(&st.entries))
 	c.Add("unprepared_answers", atomic.LoadInt64(&st.unprep))
 	c.Add("executes_with_new_generation_id", atomic.LoadInt64(&st.newGenExec))
+	c.Add("result_rows_checked_against_their_prepare", atomic.LoadInt64(&st.rowsChecked))
+	c.Add("result_rows_of_a_later_generation_checked", atomic.LoadInt64(&st.rowsCheckedNewGen))
 	// errors callers saw: only the scripted ones (or consequences of a dropped connection) are acceptable
 	for e, cnt := range errs {
 		switch {
